@@ -7,6 +7,7 @@
 //   GRAPH nv | tag.. | u v w .. | starts.. | goals..     PlannerData over the last nv states; store/load/prefixes
 //                           -> "graph L load=1 nv ne | types.. | edges.. | prefixes_accepted=k other=0|1"
 //   PARTIAL seed            copyStateData between related compound spaces (fixed layouts, values from seed)
+#include <functional>
 #include <ompl/base/StateSpace.h>
 #include <ompl/base/StateStorage.h>
 #include <ompl/base/PlannerData.h>
@@ -163,6 +164,36 @@ int main()
             bool ok2 = s1 == s0;
             std::printf("partial %d %d %d %d\n", rc, ok ? 1 : 0, rc2, ok2 ? 1 : 0);
         }
+        else if (op == "COPY") try
+        {   // COPY <dest tree> | <source tree> | <dest leaf values> | <source leaf values>     tree: L <name> | C <name> <k> tree*
+            // leaves are 1-D real vector spaces named n<name>, compounds are named n<name>; prints: copy <0|1|2> | dest leaf values
+            std::function<ob::StateSpacePtr()> parse = [&]() -> ob::StateSpacePtr
+            {
+                std::string t; in >> t;
+                if (t == "L") { int n; in >> n; auto r = std::make_shared<ob::RealVectorStateSpace>(1); r->setBounds(-1e9, 1e9); r->setName("n" + std::to_string(n)); return r; }
+                int n, k; in >> n >> k; auto c = std::make_shared<ob::CompoundStateSpace>();
+                for (int i = 0; i < k; ++i) c->addSubspace(parse(), 1.0);
+                c->setName("n" + std::to_string(n)); c->lock(); return c;
+            };
+            std::string bar;
+            ob::StateSpacePtr dS = parse(); in >> bar; ob::StateSpacePtr sS = parse(); in >> bar; dS->setup(); sS->setup();
+            ob::ScopedState<> d(dS), s2(sS);
+            std::vector<double> dv(dS->getDimension()), sv(sS->getDimension());
+            for (auto &v : dv) in >> v; in >> bar; for (auto &v : sv) in >> v;
+            for (unsigned i = 0; i < dv.size(); ++i) d[i] = dv[i];
+            for (unsigned i = 0; i < sv.size(); ++i) s2[i] = sv[i];
+            ob::ScopedState<> d2(dS); for (unsigned i = 0; i < dv.size(); ++i) d2[i] = dv[i];
+            int rc = ob::copyStateData(dS, d.get(), sS, s2.get());
+            std::printf("copy %d |", rc == ob::NO_DATA_COPIED ? 0 : (rc == ob::SOME_DATA_COPIED ? 1 : 2));
+            for (double v : d.reals()) std::printf(" %lld", (long long)v);
+            // the other route: the list of common subspaces, then the copy restricted to that list
+            std::vector<std::string> common; dS->getCommonSubspaces(sS, common);
+            int rc2 = ob::copyStateData(dS, d2.get(), sS, s2.get(), common);
+            std::printf(" # common %zu rc %d |", common.size(), rc2 == ob::NO_DATA_COPIED ? 0 : (rc2 == ob::SOME_DATA_COPIED ? 1 : 2));
+            for (double v : d2.reals()) std::printf(" %lld", (long long)v);
+            std::printf("\n");
+        }
+        catch (std::exception &ex) { std::printf("copy-exception %s\n", ex.what()); }
         std::fflush(stdout);
     }
     return 0;
